@@ -27,7 +27,8 @@ inductive Env
   /-- the fetch is answered with a partition error (for OffsetOutOfRange: what readOffsets then reports) -/
   | kerr (code : Nat) (offsets : Option (Int × Int))
   | ioErr
-  | ctxCanceled
+  /-- the context is cancelled (SetOffset / Close) while a round is being handed on: `k` of its messages got through -/
+  | canceled (budget : Nat) (hwm : Int) (expired : Bool) (k : Nat)
   | unknownCodec
   deriving Repr
 
@@ -45,7 +46,7 @@ def worldEvent (items : List Item) (s : RR) : Env → REv
     .cutAfter (Pull.readAll e s.connOff hwm (truncate (allTokens (dropBefore s.connOff items)) n)).1
   | .kerr code offs => .kerr code offs
   | .ioErr => .ioErr
-  | .ctxCanceled => .ctxCanceled
+  | .canceled b hwm e k => .ctxCanceled ((Pull.readAll e s.connOff hwm (serve items s.connOff b)).1.take k)
   | .unknownCodec => .unknownCodec
 
 def worldRun (cfg : RCfg) (items : List Item) : RR → List Env → RR
